@@ -237,3 +237,56 @@ func VH_C18_nested_any() {
 	u := NewUePolDeliverySer()
 	_ = u.UePolDeliverySerDecode(msg)
 }
+
+// lengths at and beyond the 16-bit sign boundary. Command side: one sub-list / instruction / policy part whose
+// content has a SYMBOLIC length 0..65525, so every nested length field takes every value up to 65535.
+func VH_C18_command_symlen() {
+	content := vrt.BytesSym("c", 65525)
+	var part UEPolicyPart
+	part.UEPolicyPartType.SetPartType(vrt.U8("ptype"))
+	part.SetPartContent(content)
+	var ins Instruction
+	ins.SetUpsc(vrt.U16("upsc"))
+	ins.UEPolicySectionContents.AppendUEPolicyPart(&part)
+	var sub UEPolicySectionManagementSubList
+	vrt.Assert(sub.SetPlmnDigit(208, 93) == nil, "SetPlmnDigit ok")
+	sub.UEPolicySectionManagementSubListContents.AppendInstruction(ins)
+	var list UEPolicySectionManagementListContent
+	list.AppendSublist(sub)
+	out, err := list.MarshalBinary()
+	vrt.Assert(err == nil, "marshalling a list with a long policy part succeeds")
+	vrt.Assert(len(out) == 5+4+3+len(content), "encoded size follows from the structure (any content length)")
+	var back UEPolicySectionManagementListContent
+	vrt.Assert(back.UnmarshalBinary(out) == nil, "parsing the encoded list succeeds for every content length")
+	vrt.Assert(len(back) == 1 && len(back[0].UEPolicySectionManagementSubListContents) == 1, "one sub-list, one instruction")
+	bi := back[0].UEPolicySectionManagementSubListContents[0]
+	vrt.Assert(int(back[0].Len) == 3+4+3+len(content) && int(bi.Len) == 2+3+len(content), "nested lengths computed from content (any content length)")
+	vrt.Assert(bi.Upsc == ins.Upsc && len(bi.UEPolicySectionContents) == 1, "instruction round-trips")
+	bp := bi.UEPolicySectionContents[0]
+	vrt.Assert(int(bp.Len) == 1+len(content) && bp.UEPolicyPartType == part.UEPolicyPartType, "part length and type round-trip")
+	vrt.Assert(len(bp.UEPolicyPartContents) == len(content), "part content length round-trips")
+	k := int(vrt.U16("pos"))
+	if k < len(content) {
+		vrt.Assert(bp.UEPolicyPartContents[k] == content[k], "part content round-trips at every position")
+	}
+}
+
+// Result side: a sub-result with n results for n around the 16-bit sign boundary of its length field and at the
+// maximum (Len = 3 + 5n: 32763, 32768, 32773, 65533); the wire image is written by hand, contents symbolic.
+func VH_C18_result_large() {
+	vrt.Unwind(14000)
+	n := []int{6552, 6553, 6554, 13106}[vrt.Choose("nClass", 0, 3)]
+	body := vrt.BytesSym("r", 65535)
+	vrt.Assume(len(body) >= 5*n)
+	body = body[:5*n] // concrete length, contents still an uninterpreted function of the position
+	L := 3 + 5*n
+	wire := append([]byte{byte(L >> 8), byte(L), 0x02, 0xf8, 0x39}, body...)
+	var rc UEPolicySectionManagementResultContent
+	vrt.Assert(rc.UnmarshalBinary(wire) == nil, "a well-formed sub-result with thousands of results is accepted")
+	vrt.Assert(len(rc) == 1 && int(rc[0].Len) == L, "one sub-result with its declared length")
+	rs := rc[0].UEPolicySectionManagementSubResultContents
+	vrt.Assert(len(rs) == n, "every result is parsed")
+	for _, k := range []int{0, n - 1} {
+		vrt.Assert(rs[k].Upsc == uint16(body[5*k])<<8|uint16(body[5*k+1]) && rs[k].FailInstructionOrder == uint16(body[5*k+2])<<8|uint16(body[5*k+3]) && rs[k].Cause == 0x6f, "result UPSC and order are the octets at their positions, cause normalised to 0x6f")
+	}
+}
